@@ -91,7 +91,7 @@ mod statistics;
 pub mod verif;
 
 use std::borrow::Cow;
-use std::collections::{BTreeMap, BTreeSet};
+use std::collections::{BTreeMap, BTreeSet, HashSet};
 use std::fmt::Display;
 use std::net::SocketAddr;
 use std::pin::Pin;
@@ -572,7 +572,14 @@ async fn watch_membership_changes(
 
         {
             let mut data_centers = BTreeMap::<Cow<'static, str>, Nodes>::new();
+            let mut known_addrs = HashSet::with_capacity(members.len());
             for member in members.values() {
+                // A peer which re-joined under a new node ID can still be listed with
+                // its old one, it is one node to select and must only be listed once.
+                if !known_addrs.insert(member.public_addr) {
+                    continue;
+                }
+
                 let dc = Cow::Owned(member.data_center.clone());
                 data_centers.entry(dc).or_default().push(member.public_addr);
             }
